@@ -92,6 +92,11 @@ def _snapshot_state(mods):
         for o in owners:
             b = {}
             for k, v in list(vars(o).items()):
+                # mutable default arguments are state too (def f(self, acc=[]))
+                fn = getattr(v, '__func__', v)
+                if isinstance(fn, types.FunctionType):
+                    for dv in (fn.__defaults__ or ()) + tuple((fn.__kwdefaults__ or {}).values()):
+                        note(dv)
                 if k.startswith('__') or not _is_data(v):
                     continue
                 b[k] = v
@@ -117,6 +122,15 @@ def reset_repo_state():
                 delattr(o, k)
             except Exception:
                 pass
+    # memo caches (functools.lru_cache / cache) of the repository's functions start empty, as in a fresh interpreter
+    for o, b in _BINDINGS:
+        for k, v in list(vars(o).items()):
+            cc = getattr(v, 'cache_clear', None)
+            if callable(cc) and hasattr(v, '__wrapped__'):
+                try:
+                    cc()
+                except Exception:
+                    pass
     for live, saved in _STATE:
         try:
             if live == saved:
@@ -312,6 +326,10 @@ class Patched:
         plt = _Recorder(fs, 'plt')
         import multiprocessing
         import tqdm as _tqdm_mod
+        try:
+            from scipy.ndimage import zoom as _real_zoom
+        except Exception:
+            _real_zoom = None
         real_pools = set()
         real_pools.add(multiprocessing.Pool)
         pathos_pool = None
@@ -339,6 +357,8 @@ class Patched:
                     new[k] = mpf
                 elif isinstance(v, types.ModuleType) and v.__name__ in ('matplotlib', 'matplotlib.pyplot'):
                     new[k] = plt
+                elif _real_zoom is not None and v is _real_zoom:
+                    new[k] = npfacade.zoom_stub
                 elif v is _tqdm_mod.tqdm or (getattr(v, '__name__', None) == 'tqdm' and isinstance(v, type)):
                     new[k] = tqdm_stub
                 elif pathos_pool is not None and v is pathos_pool:
